@@ -135,3 +135,19 @@ Definition wf_dist (d : dist) : bool :=
 Fixpoint nodup_ids (l : list id) : bool :=
   match l with [] => true | x :: tl => negb (memp x tl) && nodup_ids tl end.
 Definition wf_rvs (rvs : list dist) : bool := nodup_ids (rvs_names rvs) && forallb wf_dist rvs.
+
+(* ---- covariance entries looked up by NAME (specification side of "the call does not change the
+   distribution of what remains") -------------------------------------------------------------- *)
+Fixpoint idx (m : id) (l : list id) : nat :=
+  match l with [] => 0 | x :: tl => if Pos.eqb x m then 0 else S (idx m tl) end.
+(* entry (n, m) of the covariance matrix of a block: row named n, column of the row named m *)
+Definition cov_rows (rows : list jrow) (n m : id) : option (list id) :=
+  match find (fun r => Pos.eqb (r_name r) n) rows with
+  | Some r => nth_error (r_entries r) (idx m (map r_name rows))
+  | None => None
+  end.
+Definition dist_cov (d : dist) (n m : id) : option (list id) :=
+  match d with
+  | Normal n' _ v => if Pos.eqb n' n && Pos.eqb n' m then Some v else None
+  | Joint rows => if memp n (map r_name rows) && memp m (map r_name rows) then cov_rows rows n m else None
+  end.
